@@ -760,15 +760,7 @@ func c11StoreIgnoresCtx(c *Ctx, rule string) {
 // in the default pattern parser every successful return taken for a string under that syntax lies after the JSON
 // decoder was run on it (no shortcut that takes some texts as they stand).
 func c13TextDecoded(c *Ctx, rule string) {
-	var parser *ssa.Function
-	for _, f := range c.P.FuncsIn("core") {
-		if f.Parent() == nil || !strings.HasPrefix(f.Parent().Name(), "init") {
-			continue
-		}
-		if f.Signature.Params().Len() == 2 && f.Signature.Results().Len() == 2 && f.Signature.Params().At(0).Type().String() == "string" {
-			parser = f
-		}
-	}
+	parser := defaultPatternParserFn(c)
 	if parser == nil {
 		c.R.Break(rule + ": the default pattern parser (a literal of core's initialiser) was not found")
 		return
@@ -810,6 +802,9 @@ func c13TextDecoded(c *Ctx, rule string) {
 			}
 			for _, d := range phiEdgesWithBlocks(ret.Results[1], b) {
 				isJSON, isText, notText := !needSyntax, false, false
+				if bt, isB := f.Params[pIdx].Type().Underlying().(*types.Basic); isB && bt.Kind() == types.String {
+					isText = true // the helper is handed the text itself
+				}
 				for _, ft := range flow.Expand(flow.FactsAt(d.b)) {
 					if bo, isB := ft.Cond.(*ssa.BinOp); isB && ((bo.Op == token.EQL && ft.True) || (bo.Op == token.NEQ && !ft.True)) {
 						if sv, isS := ssau.ConstString(bo.Y); isS && sv == "json" && bo.X == ssa.Value(f.Params[0]) {
@@ -836,6 +831,12 @@ func c13TextDecoded(c *Ctx, rule string) {
 							for ai, a := range cl.Common().Args {
 								if a == ssa.Value(f.Params[pIdx]) {
 									judge(h, ai, false, depth+1)
+								}
+								// ... or the text that was asserted out of the pattern
+								if ex2, isE := a.(*ssa.Extract); isE && ex2.Index == 0 {
+									if ta, isTA := ex2.Tuple.(*ssa.TypeAssert); isTA && ta.X == ssa.Value(f.Params[pIdx]) {
+										judge(h, ai, false, depth+1)
+									}
 								}
 							}
 							continue
@@ -1048,4 +1049,43 @@ func c08Wrappers(c *Ctx, rule string) {
 			c.R.Check(okR, rule, fmt.Sprintf("%s: return #%d keeps 'an error comes without an Execution'", fname(f), n), c.pos(ret), "nil error, nil Execution, or an Execution handed on together with the error of the call it came from", "a layer between the interpreter and Step can return the Execution of a completed run together with an error of its own: Step attaches that Execution's events, so a failing action's emissions become visible")
 		}
 	}
+}
+
+// defaultPatternParserFn: the function that package core's initialiser stores into the variable DefaultPatternParser
+// (a function literal, or a named function).
+func defaultPatternParserFn(c *Ctx) *ssa.Function {
+	pkg := c.P.SSAPkgs[prog.Abs("core")]
+	if pkg == nil {
+		return nil
+	}
+	g, _ := pkg.Members["DefaultPatternParser"].(*ssa.Global)
+	if g == nil {
+		return nil
+	}
+	var out *ssa.Function
+	for _, f := range c.P.AllFuncs {
+		if f.Pkg != pkg || !strings.HasPrefix(f.Name(), "init") || f.Blocks == nil {
+			continue
+		}
+		ssau.Instrs(f, func(in ssa.Instruction) {
+			st, ok := in.(*ssa.Store)
+			if !ok || st.Addr != ssa.Value(g) {
+				return
+			}
+			switch x := st.Val.(type) {
+			case *ssa.MakeClosure:
+				out, _ = x.Fn.(*ssa.Function)
+			case *ssa.Function:
+				out = x
+			case *ssa.ChangeType:
+				if fn, isF := x.X.(*ssa.Function); isF {
+					out = fn
+				}
+			}
+		})
+	}
+	if out != nil && out.Signature.Params().Len() == 2 && out.Signature.Results().Len() == 2 {
+		return out
+	}
+	return nil
 }
